@@ -144,12 +144,32 @@ fn built_protected(h: &Header) -> ProtectedHeader {
     // documented: setting a protected header discards any retained wire bytes
     ProtectedHeader { original_data: None, header: h.clone() }
 }
+/// A counter-signature holding `depth` further levels of counter-signatures (struct literals).
+fn nested_sig(depth: usize) -> CoseSignature {
+    let mut s = CoseSignature { signature: vec![0xd0], ..Default::default() };
+    for level in 0..depth {
+        let hdr = Header { counter_signatures: vec![s], ..Default::default() };
+        s = if level % 2 == 0 {
+            CoseSignature { protected: built_protected(&hdr), signature: vec![level as u8], ..Default::default() }
+        } else {
+            CoseSignature { unprotected: hdr, signature: vec![level as u8], ..Default::default() }
+        };
+    }
+    s
+}
+
 fn sig_palette() -> Vec<CoseSignature> {
-    vec![CoseSignature::default(), CoseSignature { signature: vec![5], unprotected: Header { key_id: vec![1], ..Default::default() }, ..Default::default() }]
+    vec![
+        CoseSignature::default(),
+        CoseSignature { signature: vec![5], unprotected: Header { key_id: vec![1], ..Default::default() }, ..Default::default() },
+        nested_sig(7),
+        nested_sig(8),
+        nested_sig(12),
+    ]
 }
 fn gen_sig(g: &mut Gen) -> CoseSignature {
     if g.bool() {
-        sig_palette()[g.below(2)].clone()
+        { let p = sig_palette(); p[g.below(p.len())].clone() }
     } else {
         CoseSignature { protected: built_protected(&gen_hdr(g)), unprotected: gen_hdr(g), signature: g.small_bytes() }
     }
@@ -203,6 +223,7 @@ impl Spec for HeaderSpec {
             HOp::PartialIv(vec![]),
             HOp::PartialIv(vec![2]),
             HOp::AddCounterSignature(sig_palette()[1].clone()),
+            HOp::AddCounterSignature(sig_palette()[3].clone()),
             HOp::TextValue("t".into(), Value::Null),
         ];
         for l in [-1i64, 0, 1, 2, 3, 4, 5, 6, 7, 8, 9, i64::MIN, i64::MAX] {
